@@ -3,3 +3,20 @@ pub open spec fn dep_remain(d: u64, cost: u64, min_dep: Option<BigNum>) -> u64 {
     let r = if d >= cost { (d - cost) as u64 } else { 0u64 };
     match min_dep { Some(m) => if r < m.0 { m.0 } else { r }, None => r }
 }
+// ---- C13: size model of the witnesses the batch builder accounts for ------------------------------------------------------------
+/// which witness-set keys are present: key witnesses iff at least one Shelley owner, bootstrap witnesses iff at least one Byron owner
+pub open spec fn wc_fields(vkeys: u64, boots: u64) -> Set<WitnessSetNames> {
+    (if vkeys > 0 { set![WitnessSetNames::Vkeys] } else { Set::empty() }) + (if boots > 0 { set![WitnessSetNames::Bootstraps] } else { Set::empty() })
+}
+pub open spec fn sum_bsize(s: Seq<ByronAddress>) -> nat decreases s.len() { if s.len() == 0 { 0 } else { sum_bsize(s.drop_last()) + CborCalculator::bsize(s.last()) } }
+/// map head + keys, then per present field: tag 258 + array head (by count) + the witnesses themselves (101 bytes per key witness)
+pub open spec fn wc_size(vkeys: u64, boots: Seq<ByronAddress>) -> int {
+    (if vkeys > 0 || boots.len() > 0 { CborCalculator::wss_size(wc_fields(vkeys, boots.len() as u64)) } else { 0 })
+    + (if vkeys > 0 { 3 + uint_len(vkeys) + 101 * vkeys } else { 0 })
+    + (if boots.len() > 0 { 3 + uint_len(boots.len() as u64) + sum_bsize(boots) } else { 0 })
+}
+pub open spec fn wc_wf(w: WitnessesCalculator) -> bool {
+    &&& w.used_fields@ == wc_fields(w.vkeys_count, w.boostrap_count)
+    &&& w.bootsraps@.len() == w.boostrap_count
+    &&& w.total_size == wc_size(w.vkeys_count, w.bootsraps@)
+}
